@@ -287,7 +287,11 @@ def c19_call_root(token: str, node: dict, key: str = "r"):  # type: ignore[no-un
         return st["direct"][node["cls"]](node, token, key)
     inv = st["plain"][node["cls"]](node, token, key)
     st["root"] = inv
-    return inv.result
+    v = inv.result
+    for _ in range(node.get("root_reads", 1) - 1):   # reading a result again neither runs anything nor changes it
+        if inv.result != v:
+            raise AssertionError("a second read of the root's result gave a different value")
+    return v
 
 
 def _c19_body(spec: dict, token: str, key: str) -> int:
@@ -308,7 +312,7 @@ def _c19_body(spec: dict, token: str, key: str) -> int:
             st["ends"].append((key, k, "err", type(ex).__name__))
         raise
     with st["lock"]:
-        st["ends"].append((key, k, "val", v))
+        st["ends"].append((key, k, "val", 0 if v is None else v))
     return v
 
 
@@ -323,12 +327,16 @@ def _c19_run_body(st: dict, spec: dict, token: str, key: str, k: int) -> int:
         if call["t"] == "single":
             child = call["p"]
             if child["direct"]:
-                total += st["direct"][child["cls"]](child, token, ckey)
+                total += st["direct"][child["cls"]](child, token, ckey) or 0
             else:
                 inv = st["plain"][child["cls"]](child, token, ckey)
                 with st["lock"]:
                     st["invs"].append(inv)
-                total += inv.result
+                r = inv.result
+                for _ in range(call.get("reads", 1) - 1):      # a result that has been read is read again
+                    if inv.result != r:
+                        raise AssertionError("a second read of a result gave a different value")
+                total += r or 0                                 # a "none" leaf returns None where the model says 0
         elif call["t"] == "forget":
             child = call["p"]
             inv = st["plain"][child["cls"]](child, token, ckey)
@@ -345,9 +353,15 @@ def _c19_run_body(st: dict, spec: dict, token: str, key: str, k: int) -> int:
                 grp = st["plain"][cls].parallelize([(m, token, f"{ckey}.{i}") for i, m in enumerate(members)])
                 with st["lock"]:
                     st["invs"].extend(grp.invocations)
-                total += sum(grp.results)
+                vals = list(grp.results)
+                for _ in range(call.get("reads", 1) - 1):
+                    if sorted(list(grp.results), key=repr) != sorted(vals, key=repr):     # (completion order: any order)
+                        raise AssertionError("a second pass over a group's results gave different values")
+                total += sum(x or 0 for x in vals)
     if act[0] == "late":
         raise c19_exc_types()[act[1]](*act[2])
+    if spec.get("none"):
+        return None  # type: ignore[return-value]  # a leaf whose constants are all 0: returns None, read as 0 by its caller
     return act[1] + total
 
 
@@ -357,7 +371,7 @@ def c19_fanout(args: dict) -> list:
 
 
 def c19_sum(results) -> int:  # type: ignore[no-untyped-def]
-    return sum(results)
+    return sum(r or 0 for r in results)
 
 
 def _c19_make(name: str):  # type: ignore[no-untyped-def]
